@@ -578,7 +578,7 @@ fn oracles(
                     if inherits || it.name.contains('<') {
                         touched.insert(d);
                         st.bump("touched-by-inheritance");
-                    } else if !it.blocklisted {
+                    } else if !it.blocklisted && !matches!(p.decls[d].kind, DKind::Struct | DKind::Union | DKind::Class) {
                         // an opaque pattern over a namespace also flags functions and variables: without effect
                         touched.insert(d);
                     } else if !unselected.contains(&p.path(d)) {
